@@ -768,7 +768,6 @@ func rulesC14(c *Ctx) {
 		c.Check(src["resource_metadata"] && src["scope"], "middleware:challenge-parameters", hl, nil, "the challenge carries resource_metadata (from opts.ResourceMetadataURL) and scope (from opts.Scopes)")
 		// the options verify sees are the caller's: the constructor hands its opts parameter on unchanged, or as a copy that
 		// names every field of the options struct (a partial copy silently resets the omitted option, e.g. AllowMissingExpiration)
-		rb := c.Fn(pA, "", "RequireBearerToken")
 		optsP := rb.ParamOfNamed(pA, "RequireBearerTokenOptions")
 		c.Need(optsP != nil, "RequireBearerToken: options parameter")
 		optT := c.P.LookupType(pA, "RequireBearerTokenOptions")
